@@ -245,7 +245,7 @@ func recordOne(w *bufio.Writer, id int, who string, c *recCase, classes []string
 				continue
 			}
 			eq := k < len(c.vals) && reflect.DeepEqual(v, c.vals[k])
-			enc(recEvent{"ev": "val", "eq": eq})
+			enc(recEvent{"ev": "val", "eq": eq, "i": k + 1}) // i: which Decode result this is (a recording with one missing is then not a behaviour)
 			k++
 			continue
 		}
